@@ -5,6 +5,7 @@ CONSTANTS
   MinNodes = 0
   MaxDepth = 2
   MaxBlock = 2
+  Kinds <- AllKinds
   Rich = FALSE
 INVARIANT DesignFaithful
 INVARIANT DeviationsExplain
